@@ -339,6 +339,14 @@ def mkF(F, kind):
     return [set(P) for P in F]
 
 
+def F_intact(Fa, F):
+    """the caller's fairness argument after a call: same container, same sets, same contents"""
+    try:
+        return len(Fa) == len(F) and all(set(a) == set(b) for a, b in zip(Fa, F))
+    except Exception:
+        return False
+
+
 # ----------------------------------------------------------------------------------------------
 # the implementation side (runs in worker processes; pure function of the group description)
 # ----------------------------------------------------------------------------------------------
@@ -398,7 +406,10 @@ def do_group(g):
         e = {'F': F, 'kind': kind, 'true_fair': tf, 'every_path_fair': every_path_fair(kd, F), 'cases': [], 'bad': []}
         # --- get_fair_states
         def gfs(K):
-            r = call(lambda: K.get_fair_states(mkF(F, kind)))
+            Fa = mkF(F, kind)
+            r = call(lambda: K.get_fair_states(Fa))
+            if r[0] == 'ok' and not F_intact(Fa, F):
+                return ('err', 'other:the-F-argument-was-modified:%r' % (Fa,))
             return canon(r, K)
         r, d = guarded(gfs)
         ks = kripke_sx(box['K'])
@@ -418,7 +429,10 @@ def do_group(g):
         e['label'] = {'impl': r, 'changed': d, 'cmd': ['labelfair', ks, Fs]}
         # --- the three model checkers with F
         for i, (logic, f) in enumerate(g.get('forms', [])):
-            r, d = guarded(lambda K: impl_call(logic, K, f, 'F', mkF(F, kind)))
+            Fa = mkF(F, kind)
+            r, d = guarded(lambda K: impl_call(logic, K, f, 'F', Fa))
+            if r[0] == 'ok' and not F_intact(Fa, F):
+                r = ('err', 'other:the-F-argument-was-modified:%r' % (Fa,))
             e['cases'].append({'i': i, 'r': r, 'changed': d, 'ref': sorted(ref_check(kd, ref_form(f), [set(P) for P in F])),
                                'cmd': model_cmd(logic, box['K'], f, F)})
         for (logic, f) in g.get('bad', []):
